@@ -256,9 +256,32 @@ func b2i(b bool) int {
 
 /*@ func (self *Compiler) pushLoop
     serves C11
-    ensures @pushed len(self.loops) == old(len(self.loops))+1 && self.loops[len(self.loops)-1] == l
+    ensures @pushed len(self.loops) == old(len(self.loops))+1 && self.loops[len(self.loops)-1].labelStart == l.labelStart && self.loops[len(self.loops)-1].labelBreak == l.labelBreak && self.loops[len(self.loops)-1].labelContinue == l.labelContinue
+    ensures @records-open-handlers self.loops[len(self.loops)-1].tryDepth == self.tryDepth && self.tryDepth == old(self.tryDepth)
     ensures @scopes-kept self.scopesWF() == old(self.scopesWF()) && len(self.varScopes) == old(len(self.varScopes)) && self.currFn == old(self.currFn) && self.currModule == old(self.currModule) && samemap(self.modules, old(self.modules))
     ensures @no-scope-changed forall m map[string]string in allocated :: samecontent(m, old(m))
+@*/
+
+// Handler discipline (C11): `tryDepth` is the number of try blocks of the
+// function being compiled which are open at the current point of code
+// generation, a loop records the number open at its entry, and a jump out of
+// try blocks (`break`, `continue`, `return`) is preceded by exactly one
+// PopTryLabel per block it leaves, so no catch-label outlives its block.
+
+/*@ func (self *Compiler) leaveTryBlocks
+    serves C11
+    requires self.aligned()
+    ensures @aligned self.aligned() && self.CurrFn() == old(self.CurrFn())
+    ensures @one-pop-per-open-block outerDepth <= self.tryDepth ==> self.codeLen() == old(self.codeLen()) + int(self.tryDepth - outerDepth)
+    ensures @none-if-none-open outerDepth >= self.tryDepth ==> self.codeLen() == old(self.codeLen())
+    ensures @only-pops forall k in old(self.codeLen())..self.codeLen() :: self.CurrFn().Instructions[k].Opcode() == Opcode_PopTryLabel && self.CurrFn().SourceMap[k] == span
+    ensures @prefix-kept forall i in 0..old(self.codeLen()) :: self.CurrFn().Instructions[i] == old(self.CurrFn().Instructions[i]) && self.CurrFn().SourceMap[i] == old(self.CurrFn().SourceMap[i])
+    ensures @depth-kept self.tryDepth == old(self.tryDepth)
+    loop 1 invariant outerDepth <= depth && (outerDepth <= self.tryDepth ==> depth <= self.tryDepth) && self.aligned() && self.CurrFn() == entry(self.CurrFn()) && self.tryDepth == entry(self.tryDepth)
+    loop 1 invariant (outerDepth <= self.tryDepth ==> self.codeLen() == entry(self.codeLen()) + int(depth - outerDepth)) && (outerDepth >= self.tryDepth ==> self.codeLen() == entry(self.codeLen()))
+    loop 1 invariant forall k in entry(self.codeLen())..self.codeLen() :: self.CurrFn().Instructions[k].Opcode() == Opcode_PopTryLabel && self.CurrFn().SourceMap[k] == span
+    loop 1 invariant forall i in 0..entry(self.codeLen()) :: self.CurrFn().Instructions[i] == entry(self.CurrFn().Instructions[i]) && self.CurrFn().SourceMap[i] == entry(self.CurrFn().SourceMap[i])
+    loop 1 decreases int(self.tryDepth) - int(depth)
 @*/
 
 // Expressions never bind a name in the scope they are compiled in (blocks,
@@ -269,8 +292,10 @@ func b2i(b bool) int {
     serves C01, C11, C15
     trusted
     requires self.scopesWF() && self.aligned()
+    ensures @only-appends self.codeLen() >= old(self.codeLen())
     ensures @scope-stack-balanced self.scopesWF() && len(self.varScopes) == old(len(self.varScopes)) && forall i in 0..len(self.varScopes) :: samemap(self.varScopes[i], old(self.varScopes[i]))
     ensures @loop-stack-balanced len(self.loops) == old(len(self.loops))
+    ensures @handlers-balanced self.tryDepth == old(self.tryDepth)
     ensures @same-function self.aligned() && self.currFn == old(self.currFn) && self.currModule == old(self.currModule) && samemap(self.modules, old(self.modules)) && self.CurrFn() == old(self.CurrFn())
     ensures @no-scope-changed forall m map[string]string in allocated :: samecontent(m, old(m))
 @*/
@@ -281,6 +306,7 @@ func b2i(b bool) int {
     requires self.scopesWF() && self.aligned()
     ensures @scope-stack-balanced self.scopesWF() && len(self.varScopes) == old(len(self.varScopes)) && forall i in 0..len(self.varScopes) :: samemap(self.varScopes[i], old(self.varScopes[i]))
     ensures @loop-stack-balanced len(self.loops) == old(len(self.loops))
+    ensures @handlers-balanced self.tryDepth == old(self.tryDepth)
     ensures @same-function self.aligned() && self.currFn == old(self.currFn) && self.currModule == old(self.currModule) && samemap(self.modules, old(self.modules)) && self.CurrFn() == old(self.CurrFn())
     ensures @only-current-scope forall m map[string]string in allocated :: !samemap(m, old(self.varScopes[len(self.varScopes)-1])) ==> samecontent(m, old(m))
     ensures @declared haskey(self.varScopes[len(self.varScopes)-1], node.Ident.Ident())
@@ -294,10 +320,11 @@ func b2i(b bool) int {
     requires self.scopesWF() && self.aligned()
     ensures @scope-stack-balanced self.scopesWF() && len(self.varScopes) == old(len(self.varScopes)) && forall i in 0..len(self.varScopes) :: samemap(self.varScopes[i], old(self.varScopes[i]))
     ensures @loop-stack-balanced len(self.loops) == old(len(self.loops))
+    ensures @handlers-balanced self.tryDepth == old(self.tryDepth)
     ensures @same-function self.aligned() && self.currFn == old(self.currFn) && self.currModule == old(self.currModule) && samemap(self.modules, old(self.modules)) && self.CurrFn() == old(self.CurrFn())
     ensures @only-current-scope forall m map[string]string in allocated :: !samemap(m, old(self.varScopes[len(self.varScopes)-1])) ==> samecontent(m, old(m))
     ensures @own-scope pushScope ==> forall m map[string]string in allocated :: samecontent(m, old(m))
-    loop 1 invariant self.scopesWF() && self.aligned() && len(self.varScopes) == entry(len(self.varScopes)) && len(self.loops) == entry(len(self.loops)) && self.currFn == entry(self.currFn) && self.currModule == entry(self.currModule) && samemap(self.modules, entry(self.modules)) && self.CurrFn() == entry(self.CurrFn())
+    loop 1 invariant self.scopesWF() && self.aligned() && len(self.varScopes) == entry(len(self.varScopes)) && len(self.loops) == entry(len(self.loops)) && self.tryDepth == entry(self.tryDepth) && self.currFn == entry(self.currFn) && self.currModule == entry(self.currModule) && samemap(self.modules, entry(self.modules)) && self.CurrFn() == entry(self.CurrFn())
     loop 1 invariant forall i in 0..len(self.varScopes) :: samemap(self.varScopes[i], entry(self.varScopes[i]))
     loop 1 invariant forall m map[string]string in allocated :: !samemap(m, self.varScopes[len(self.varScopes)-1]) ==> samecontent(m, entry(m))
 @*/
@@ -310,13 +337,19 @@ func b2i(b bool) int {
     requires node != nil && node.Kind() != ast.SingletonTypeDefinitionStatementKind
     assert @for-scope-pushed after headIdentName := self.mangleVar(node.Identifier.Ident()) :: self.scopesWF() && len(self.varScopes) == old(len(self.varScopes))+1 && fresh(self.varScopes[len(self.varScopes)-1]) && forall m map[string]string in allocated :: samecontent(m, old(m))
     assert @for-body-compiled after self.compileBlock(node.Body, false) :: self.scopesWF() && len(self.varScopes) == old(len(self.varScopes))+1 && fresh(self.varScopes[len(self.varScopes)-1]) && forall m map[string]string in allocated :: samecontent(m, old(m))
+    assert @break-leaves-its-try-blocks before self.insert(newOneStringInstruction(Opcode_Jump, self.currLoop().labelBreak) :: (self.loops[len(self.loops)-1].tryDepth <= self.tryDepth ==> self.codeLen() == old(self.codeLen()) + int(self.tryDepth - self.loops[len(self.loops)-1].tryDepth)) && (self.loops[len(self.loops)-1].tryDepth >= self.tryDepth ==> self.codeLen() == old(self.codeLen())) && forall k in old(self.codeLen())..self.codeLen() :: self.CurrFn().Instructions[k].Opcode() == Opcode_PopTryLabel
+    assert @continue-leaves-its-try-blocks before self.insert(newOneStringInstruction(Opcode_Jump, self.currLoop().labelContinue) :: (self.loops[len(self.loops)-1].tryDepth <= self.tryDepth ==> self.codeLen() == old(self.codeLen()) + int(self.tryDepth - self.loops[len(self.loops)-1].tryDepth)) && (self.loops[len(self.loops)-1].tryDepth >= self.tryDepth ==> self.codeLen() == old(self.codeLen())) && forall k in old(self.codeLen())..self.codeLen() :: self.CurrFn().Instructions[k].Opcode() == Opcode_PopTryLabel
+    assert @return-leaves-all-try-blocks before self.insert(newOneStringInstruction(Opcode_Jump, self.CurrFn().CleanupLabel) :: self.codeLen() >= old(self.codeLen()) + int(self.tryDepth) && (node.ReturnValue == nil ==> self.codeLen() == old(self.codeLen()) + int(self.tryDepth)) && forall k in self.codeLen()-int(self.tryDepth)..self.codeLen() :: self.CurrFn().Instructions[k].Opcode() == Opcode_PopTryLabel
+    ensures @break-jumps node.Kind() == ast.BreakStatementKind ==> self.emitted(0).Opcode() == Opcode_Jump && self.emitted(0).(OneStringInstruction).Value == self.loops[len(self.loops)-1].labelBreak
+    ensures @continue-jumps node.Kind() == ast.ContinueStatementKind ==> self.emitted(0).Opcode() == Opcode_Jump && self.emitted(0).(OneStringInstruction).Value == self.loops[len(self.loops)-1].labelContinue
     requires self.scopesWF() && self.aligned()
     ensures @scope-stack-balanced self.scopesWF() && len(self.varScopes) == old(len(self.varScopes)) && forall i in 0..len(self.varScopes) :: samemap(self.varScopes[i], old(self.varScopes[i]))
     ensures @loop-stack-balanced len(self.loops) == old(len(self.loops))
+    ensures @handlers-balanced self.tryDepth == old(self.tryDepth)
     ensures @same-function self.aligned() && self.currFn == old(self.currFn) && self.currModule == old(self.currModule) && samemap(self.modules, old(self.modules)) && self.CurrFn() == old(self.CurrFn())
     ensures @only-current-scope forall m map[string]string in allocated :: !samemap(m, old(self.varScopes[len(self.varScopes)-1])) ==> samecontent(m, old(m))
     ensures @only-let-declares node.Kind() != ast.LetStatementKind ==> forall m map[string]string in allocated :: samecontent(m, old(m))
-    loop 1 invariant self.scopesWF() && self.aligned() && len(self.varScopes) == entry(len(self.varScopes)) && len(self.loops) == entry(len(self.loops)) && self.currFn == entry(self.currFn) && self.currModule == entry(self.currModule) && samemap(self.modules, entry(self.modules)) && self.CurrFn() == entry(self.CurrFn())
+    loop 1 invariant self.scopesWF() && self.aligned() && len(self.varScopes) == entry(len(self.varScopes)) && len(self.loops) == entry(len(self.loops)) && self.tryDepth == entry(self.tryDepth) && self.currFn == entry(self.currFn) && self.currModule == entry(self.currModule) && samemap(self.modules, entry(self.modules)) && self.CurrFn() == entry(self.CurrFn())
     loop 1 invariant forall i in 0..len(self.varScopes) :: samemap(self.varScopes[i], entry(self.varScopes[i]))
     loop 1 invariant forall m map[string]string in allocated :: samecontent(m, entry(m))
 @*/
